@@ -42,7 +42,10 @@ IsTrace == cfg.fam = "trace"
 
 (* ------------------------------------------------------------------ standard templates (MC) *)
 (* cfg = [fam, N, ch, mode, k, sw, pa]: ch[i] = which members level i declares, mode = how bodies *)
-(* are chained, k = the level whose <%inherit> is an expression (0: none), sw = what it selects.  *)
+(* are chained, k = the level (ANY level 1..N; 0: none) whose <%inherit> is an expression, sw =   *)
+(* what that expression yields at render time: "p1" the template below (i-1), "p2" the alternative *)
+(* base N+1, "none" = None, i.e. "do not inherit this time" -- k then IS the base-most ancestor of  *)
+(* the resulting chain, whatever its position in the chain as written.                             *)
 If(c, s) == IF c THEN s ELSE <<>>
 DecoyCh == [f |-> TRUE, a |-> "truthy", b |-> TRUE, c |-> "none"]
 StdCh(i) == IF i = cfg.N + 1 THEN DecoyCh ELSE cfg.ch[i]
@@ -87,7 +90,7 @@ FullTpl(i) == T(i) @@ [body |-> ScriptOf(i, "body"), fs |-> ScriptOf(i, "f"), bs
 (* the inherit target of template i, evaluated as write_inherit's expression would be *)
 Target(i) == CASE T(i).inh = "none" -> NONE
                [] T(i).inh = "static" -> T(i).p1
-               [] T(i).inh = "dyn" -> IF cfg.sw THEN T(i).p1 ELSE T(i).p2
+               [] T(i).inh = "dyn" -> CASE cfg.sw = "p1" -> T(i).p1 [] cfg.sw = "p2" -> T(i).p2 [] cfg.sw = "none" -> NONE
 
 Choices(fam) ==
   CASE fam = "dispatch" -> [f : BOOLEAN, a : {"none"}, b : {FALSE}, c : {"none"}]
@@ -101,7 +104,7 @@ Families == {"dispatch", "attrs", "blocks", "args", "dyn"}
 Configs ==
   UNION {UNION {UNION {
      {[fam |-> fam, N |-> N, ch |-> ch, mode |-> mode, k |-> ks[1], sw |-> ks[2], pa |-> (fam = "args")] :
-        ks \in IF fam = "dyn" THEN (2..N) \X BOOLEAN ELSE {<<0, TRUE>>}}
+        ks \in IF fam = "dyn" THEN {z \in (1..N) \X {"p1", "p2", "none"} : ~(z[1] = 1 /\ z[2] = "p1")} ELSE {<<0, "p1">>}}
      : ch \in [1..N -> Choices(fam)], mode \in Modes(fam)} : N \in 1..MaxN[fam]} : fam \in Families}
 
 Blank == [self |-> NONE, local |-> NONE, next |-> NONE, parent |-> NONE]
